@@ -758,15 +758,22 @@ impl<'de> Deserializer<'de> {
         }
         // This is safe, because the visitor either impl Copy or is zero sized
         let v = unsafe { std::ptr::read(&visitor) };
+        // The queue of pending arguments is not touched while a value is decoded, so it is kept out of the
+        // snapshot: copying it for every optional value made the work grow with (pending arguments) x
+        // (optional values) instead of with the quota.
+        let types = std::mem::take(&mut self.types);
         let self_clone = self.clone();
+        self.types = types;
         match v.visit_some(&mut *self) {
             Ok(v) => Ok(v),
             Err(Error::Subtype(_)) => {
+                let types = std::mem::take(&mut self.types);
                 *self = Self {
                     // Remember the backtracking cost
                     config: self.config.clone(),
                     ..self_clone
                 };
+                self.types = types;
                 self.add_cost(10)?;
                 self.deserialize_ignored_any(serde::de::IgnoredAny)?;
                 visitor.visit_none()
